@@ -103,7 +103,7 @@ class B:
     def pro_op(self):
         name = self.draw(st.sampled_from(sorted(self.lists)))
         t, n = self.lists[name]
-        op = self.draw(st.sampled_from(["append", "remove_present", "drain_refill", "read", "read", "self_assign", "reassign", "alias", "helper_read", "helper_mutate", "empty_range"]))
+        op = self.draw(st.sampled_from(["append", "remove_present", "drain_refill", "loop_append", "copy_assign", "skewed_copy", "skewed_copy", "read", "read", "self_assign", "reassign", "alias", "helper_read", "helper_mutate", "empty_range"]))
         d = self.pro
         if op == "append":
             d.append(f"{name}.append({self.operand(t, d, (name, n))})"); self.lists[name][1] += 1
@@ -117,6 +117,41 @@ class B:
             if k == 0 and t == "int" and self.draw(st.booleans()):
                 d.append(f"{name} = [{self.elem(t)}]"); k = 1
             self.lists[name][1] = k
+        elif op == "loop_append" and t in ("int", "bool"):
+            # appends under control flow: the run-time length is not what a statement count suggests
+            k = self.draw(st.integers(1, 3))
+            form = self.draw(st.sampled_from(["for", "if", "while"]))
+            if form == "for":
+                d += [f"for q in range({k}):", f"    {name}.append({self.elem(t)})"]
+            elif form == "if":
+                k = 1
+                d += [f"if len({name}) >= 0:", f"    {name}.append({self.elem(t)})"]
+            else:
+                w = self.nm("w")
+                d += [f"{w} = {k}", f"while {w} > 0:", f"    {w} = {w} - 1", f"    {name}.append({self.elem(t)})"]
+            self.lists[name][1] += k
+        elif op == "skewed_copy" and t in ("int", "bool"):
+            # both lists have seen the same *number of append statements*, but one of them inside a loop: equal on paper, different at run time
+            others = sorted(o for o, (ot, on) in self.lists.items() if o != name and ot == t and on >= 1)
+            if others and n >= 1:
+                src = self.draw(st.sampled_from(others))
+                k = self.draw(st.integers(2, 3))
+                grow_src = self.draw(st.booleans())
+                big, small_ = (src, name) if grow_src else (name, src)
+                d += [f"for q in range({k}):", f"    {big}.append({self.elem(t)})", f"{small_}.append({self.elem(t)})"]
+                self.lists[big][1] += k
+                self.lists[small_][1] += 1
+                d += [f"{name} = {src}", f"mon.write(len({name}))", f"mon.write({name}[-1])"]
+                self.lists[name][1] = self.lists[src][1]
+                self.reassigned = True
+        elif op == "copy_assign":
+            # whole-list assignment between two declared lists of the same element type (deep copy on the device)
+            others = sorted(o for o, (ot, on) in self.lists.items() if o != name and ot == t and on >= 1)
+            if others:
+                src = self.draw(st.sampled_from(others))
+                d += [f"{name} = {src}", f"mon.write(len({name}))"]
+                self.lists[name][1] = self.lists[src][1]
+                self.reassigned = True
         elif op == "self_assign":
             d.append(f"{name} = {name}")
         elif op == "reassign" and t in ("int", "float") and n >= 1:
